@@ -261,6 +261,11 @@ func c23Post(total *WorkerResult) {
 	}
 	files, _ := filepath.Glob(filepath.Join(dir, "*.jsonl"))
 	sort.Strings(files)
+	if len(files) == 0 {
+		// never silent: a corpus directory without files means the second builds judged nothing
+		total.Inconcl = append(total.Inconcl, "cgo vs pure-Go / asan comparison not run: the corpus directory "+dir+" holds no files")
+		return
+	}
 	for _, mode := range []string{"nocgo", "asan"} {
 		bin, why := c23SecondBinary(mode)
 		if bin == "" {
